@@ -973,6 +973,8 @@ func runShard(prop string, seed int64, idx int, n int, slow int, realOpen, unawa
 		default:
 			if r.Intn(6) == 0 {
 				sh.execResp()
+			} else if prop == "C12" && r.Intn(4) == 0 {
+				sh.execDupProposal("")
 			} else {
 				if r.Intn(5) == 0 { // a local update was left half-way: the sync handler discards it
 					cur0 := f.genState(r.Intn(2), false)
@@ -992,6 +994,8 @@ func runShard(prop string, seed int64, idx int, n int, slow int, realOpen, unawa
 		// the known finding, once per run independent of the seed
 		f.actingContext(0)
 		sh.execUpd(f.unawaitedCase(f.snapshot().Current.State), false, doProbe)
+		// colliding proposal ids on two parents, once per run independent of the seed
+		sh.execDupProposal("same-id-two-parents")
 	}
 	// the slow cases: proposals that pass validation and wait for their twin
 	for k := 0; k < slow; k++ {
